@@ -181,6 +181,39 @@ Theorem C14_timeout_with_pending_input :
     observe (run_sm c (pre ++ ETimer :: ins ++ post)) = observe (run_sm c (pre ++ ETimer :: post)).
 Proof. exact timeout_with_pending_input. Qed.
 
+(** F-C14e.  The stdin worker leaves its loop only by an iteration whose read is not a
+    unit of input ([Model.StdinDrainModel], validated against the real [handle_stdin]
+    by [Corr.C14Corr.dcorr]), and [_finish] joins it without a timeout: "promptly" has
+    no bound that is independent of the input still queued -- for every bound [b] there
+    is a finite queue that keeps the worker going for more than [b] iterations (one
+    [input_sleep] each) after the command has finished or has been killed. *)
+From InvokeVerif Require Import Model.StdinDrainModel Proofs.C14_drain.
+Theorem C14_prompt_pending_refuted :
+  forall b, exists q,
+    all_data q = true /\ b < iterations_after_finish q /\ forwarded_after_finish q = S b.
+Proof. exact prompt_pending_refuted. Qed.
+
+(** ... what does hold: a FINITE queue is drained -- exactly one iteration per queued
+    unit and one more, every unit forwarded (missing: an input stream that never runs
+    dry is not a finite list; the worker, and with it run(), then never ends). *)
+Theorem C14_drain_terminates_partial :
+  forall q, all_data q = true ->
+    iterations_after_finish q = S (List.length q) /\ forwarded_after_finish q = List.length q.
+Proof. exact drain_all_data. Qed.
+
+(** the loop is left by the first read that is not a unit of input (not ready / EOF) *)
+Theorem C14_drain_stops_at_first_gap :
+  forall q r rest, all_data q = true -> is_data r = false ->
+    iterations_after_finish (q ++ r :: rest) = S (List.length q).
+Proof. exact drain_stops_at_first_gap. Qed.
+
+Example C14_ex_drain :
+  all_data [RData; RData; RData] = true /\
+  iterations_after_finish [RData; RData; RData] = 4 /\
+  iterations_after_finish [RData; RNotReady; RData] = 2 /\
+  iterations_after_finish [RNotReady; RData] = 1 /\ closes_after_finish [RData; REmpty] = true.
+Proof. vm_compute. auto. Qed.
+
 (** Non-vacuity *)
 Example C14_ex_pending_input :
   let c := mkCfg false true true false false false false false in
